@@ -25,6 +25,12 @@ Theorem C18_join_absolute : forall p q, is_absolute q = true \/ p = [] -> join p
 Proof. exact join_absolute. Qed.
 Print Assumptions C18_join_absolute.
 
+(* otherwise join keeps both operands verbatim, with exactly one '/' between them unless the left one ends in '/' *)
+Theorem C18_join_shape : forall p q, p <> [] -> is_absolute q = false ->
+  join p q = p ++ (if last p 0 =? SLASH then [] else [SLASH]) ++ q.
+Proof. exact join_shape. Qed.
+Print Assumptions C18_join_shape.
+
 (* totality: getParentDirectory never erases beyond the end of the string, whatever the input
    (empty, "/", "//", "a/", only separators, ...) *)
 Theorem C18_parent_total : forall s, get_parent s <> None.
